@@ -9,13 +9,14 @@ from mirsym.interp import deep_clone, f_cmp, f_floor, f_ceil
 
 MSGI = 'ommx.v1.Instance'
 KMAX = 21
+NEAR = 12
 
 
 def build(chk):
     eng = chk.eng
     le = eng.method('log_encode', first_param='&mut v1::Instance')
     B, rd = Build(chk), Rd(chk)
-    chk.bounds = {'bounds': f'lower and upper symbolic on the half-integer grid k/2 with |k| <= 2^{KMAX} (so |l|,|u| <= 2^{KMAX - 1} and fractional bounds are covered); infinite / NaN endpoints and '
+    chk.bounds = {'bounds': f'main harness: lower and upper symbolic on the half-integer grid k/2 with |k| <= 2^{KMAX} (so |l|,|u| <= 2^{KMAX - 1} and fractional bounds are covered); near-integer harnesses: symbolic integer part in [-{NEAR},{NEAR}] plus a fractional part from {{0, 2^-30, 1-2^-30}} (8 combinations: endpoints a hair above / below an integer); infinite / NaN endpoints and '
                   'missing bound by explored choice', 'kinds': 'integer, binary, continuous, unspecified', 'range width': f'ceil(log2(width+1)) ranges over 1..{KMAX} (one explored path each)',
                   'image check': 'widths < 64: for every t in 0..63 the solver shows (t <= width) -> some bit assignment sums to t, and every bit assignment sums into the range; '
                   'larger widths: the complete-sequence criterion (sorted coefficients c1=1, c_{i+1} <= 1 + sum of the previous ones, total = width)'}
@@ -23,14 +24,21 @@ def build(chk):
                         'complete-sequence lemma: positive integers sorted ascending with c1 = 1 and c_{i+1} <= 1 + c1+..+ci have subset sums covering every integer in [0, total]',
                         'library models trusted and validated natively each run']
 
-    def h(P):
+    def h(P, fl=None, fu=None):
         kind = [2, 1, 3, 0][P.choose(4)]
         bshape = ['finite', 'none', 'upper-inf', 'lower-inf', 'both-inf', 'nan'][P.choose(6)]
         target = [3, 99][P.choose(2)]
         kl, ku = z3.Int('kl'), z3.Int('ku')
-        lim = 2 ** KMAX
-        P.ctx.assume(z3.And(kl >= -lim, kl <= lim, ku >= -lim, ku <= lim))
-        lo, hi = FV('fin', z3.ToReal(kl) / 2), FV('fin', z3.ToReal(ku) / 2)
+        if fl is None:
+            # main harness: half-integer grid over the full magnitude range
+            lim = 2 ** KMAX
+            P.ctx.assume(z3.And(kl >= -lim, kl <= lim, ku >= -lim, ku <= lim))
+            lo, hi = FV('fin', z3.ToReal(kl) / 2), FV('fin', z3.ToReal(ku) / 2)
+        else:
+            # near-integer harnesses: symbolic integer part in [-NEAR, NEAR] + a fractional part from {0, 2^-30, 1 - 2^-30}: endpoints a hair above /
+            # below an integer (closer than any tolerance >= 1e-9; exact binary64 values)
+            P.ctx.assume(z3.And(kl >= -NEAR, kl <= NEAR, ku >= -NEAR, ku <= NEAR))
+            lo, hi = FV('fin', z3.ToReal(kl) + z3.Q(fl.numerator, fl.denominator)), FV('fin', z3.ToReal(ku) + z3.Q(fu.numerator, fu.denominator))
         bound = {'finite': (lo, hi), 'none': None, 'upper-inf': (lo, PINF), 'lower-inf': (NINF, hi), 'both-inf': (NINF, PINF), 'nan': (lo, NAN)}[bshape]
         order = [[3, 10], [10, 3], [4, 3]][P.choose(3)]     # listing order of the decision variables (ids need not be sorted)
         other = [i for i in order if i != 3][0]
@@ -161,6 +169,11 @@ def build(chk):
                     conj.append(b_or(*alts))
         P.require('encodes-exactly-the-integer-range', b_and(*conj), witness)
     chk.harness('log_encode', h, regions=['err', 'encoded'], step_budget=300000, max_paths=100000)
+    FR = [Fraction(0), Fraction(1, 2 ** 30), 1 - Fraction(1, 2 ** 30)]
+    for fl in FR:
+        for fu in FR:
+            if fl or fu:
+                chk.harness(f'log_encode:near-integer({fl},{fu})', (lambda P, fl=fl, fu=fu: h(P, fl, fu)), regions=['err', 'encoded'], step_budget=300000, max_paths=100000)
     chk.validation('log_encode', lambda c: validate(c, le))
 
 
